@@ -126,6 +126,11 @@ pub fn scripts() -> Vec<Vec<u8>> {
         b"POST /g HTTP/1.1\r\ncontent-length: 10\r\n\r\nhell".to_vec(),
         b"\x00\xffgarbage\r\n\r\n".to_vec(),
         b"POST /h HTTP/1.1\r\ntransfer-encoding: gzip\r\ncontent-length: 5\r\n\r\nhelloGET /n HTTP/1.1\r\n\r\n".to_vec(),
+        // an explicit zero length, then a second request on the same connection
+        b"GET /i HTTP/1.1\r\ncontent-length: 0\r\n\r\nGET /j HTTP/1.1\r\n\r\n".to_vec(),
+        // chunked together with a zero length; expect with the body already in the same segment
+        b"POST /k HTTP/1.1\r\ntransfer-encoding: chunked\r\ncontent-length: 0\r\n\r\n0\r\n\r\n".to_vec(),
+        b"PUT /l HTTP/1.1\r\nexpect: 100-continue\r\n\r\nbody-without-length".to_vec(),
     ]
 }
 
@@ -149,6 +154,8 @@ pub fn run_c03b(ctx: &mut Ctx) {
                 1 => head.push_str(&format!("transfer-encoding: gzip\r\ncontent-length: {blen}\r\n")),
                 2 => head.push_str(&format!("content-length: {blen}\r\nexpect: 100-continue\r\n")),
                 3 => { body.clear(); }
+                4 if j + 1 == k => { head.push_str("transfer-encoding: chunked\r\ncontent-length: 0\r\n"); }
+                5 if j + 1 == k => { head.push_str("expect: 100-continue\r\n"); }
                 _ => head.push_str(&format!("content-length: {blen}\r\n")),
             }
             if rng.chance(1, 3) { head.push_str("x-pad: 1\r\n"); }
